@@ -34,6 +34,10 @@ namespace fsh
         // basin-graph objects kept from one bgraph call to the next (per method), so that scratch
         // state surviving between updates is exercised
         std::map<std::string, std::unique_ptr<bgraph_type>> bgraphs;
+        // the eroder object is kept as long as successive spl calls use the same constructor
+        // arguments, so that state surviving between erode() calls is exercised
+        std::unique_ptr<fs::spl_eroder<FG>> spl_obj;
+        std::string spl_sig;
 
         Session(G& g, std::ostream& o)
             : grid(g)
@@ -256,6 +260,8 @@ namespace fsh
             ops.clear();
             bgraphs.clear();
             prefix_graphs.clear();
+            spl_obj.reset();
+            spl_sig.clear();
             graph.reset();
             mask_set = base_set = false;
             while (l.more())
@@ -591,14 +597,28 @@ namespace fsh
             try
             {
                 using eroder_t = fs::spl_eroder<FG>;
-                std::unique_ptr<eroder_t> er;
-                if (kk == "s")
-                    er = std::make_unique<eroder_t>(*graph, ks, m, nn, tol);
-                else
+                std::ostringstream sig;
+                sig << kk << ' ' << hexd(ks);
+                for (auto x : kv)
+                    sig << ' ' << hexd(x);
+                sig << ' ' << hexd(m) << ' ' << hexd(nn) << ' ' << hexd(tol);
+                if (!spl_obj || sig.str() != spl_sig)
                 {
-                    arr ka = make_arr(kv);
-                    er = std::make_unique<eroder_t>(*graph, ka, m, nn, tol);
+                    spl_obj.reset();
+                    spl_sig.clear();
+                    if (kk == "s")
+                        spl_obj = std::make_unique<eroder_t>(*graph, ks, m, nn, tol);
+                    else
+                    {
+                        arr ka = make_arr(kv);
+                        spl_obj = std::make_unique<eroder_t>(*graph, ka, m, nn, tol);
+                    }
+                    spl_sig = sig.str();
+                    os << "O spl_new 1\n";
                 }
+                else
+                    os << "O spl_new 0\n";
+                auto& er = spl_obj;
                 arr a = make_arr(area);
                 arr e = make_arr(elevv);
                 for (int r = 0; r < reps; ++r)
